@@ -44,8 +44,8 @@ theorem recvErr_closed_none : recvErr "PeerClosed" none = some (.fail .runtime) 
 theorem recvErr_closed_some (r : RespInfo) : recvErr "PeerClosed" (some r) = some (.done r true true) := by
   simp [recvErr, recvBranch, Gen.HttpRetry.recvBranches, List.lookup]
 
-theorem reusable_eq (cfg : Cfg) (r : RespInfo) (fe cd : Bool) :
-    reusable cfg r fe cd = (cfg.reuse && !responseRequestsClose r.conn r.version && !fe && !cd) := by
+theorem reusable_eq (cfg : Cfg) (r : RespInfo) (fe cd res : Bool) :
+    reusable cfg r fe cd res = (cfg.reuse && !responseRequestsClose r.conn r.version && !fe && !cd && !res) := by
   simp [reusable, Gen.HttpRetry.reusableAtoms, evalReuse, Bool.and_assoc]
 
 
